@@ -368,7 +368,7 @@ class Check:
 
     # ----------------------------------------------------------- correspondence
     def corr(self, family, requests, profile="debug", starts=(), nvh_args=("run",), drv_family=None,
-             label=None, timeout=1800):
+             label=None, timeout=1800, model_skip=None):
         """Run request lines through the implementation (nvh <family> run) and the model
         (nvdriver <family>) and diff the answers. `starts`: first words that begin a new history
         (used to cut out the context of a disagreement). Returns a dict."""
@@ -383,7 +383,22 @@ class Check:
                                 "stderr": err_lines[-5:]})
         model_lines = []
         if os.path.exists(DRIVER):
-            model_lines, stalls = run_model([DRIVER, drv_family or family], requests, starts, timeout)
+            # stateless families may name implementation answers after which the model is not asked at all (the
+            # implementation hung / was killed on that request: the comparison is moot and the model, which has no
+            # time limit, may need hours for a program that never ends)
+            skip = set()
+            if model_skip is not None and not starts:
+                skip = {i for i, a in enumerate(impl_lines) if model_skip(a)}
+            asked = [r for i, r in enumerate(requests) if i not in skip]
+            got, stalls_a = run_model([DRIVER, drv_family or family], asked, starts, timeout)
+            back = [i for i in range(len(requests)) if i not in skip]
+            model_lines = [MODEL_SKIPPED] * len(requests)
+            for j, l in enumerate(got):
+                if j < len(back):
+                    model_lines[back[j]] = l
+            stalls = [(back[j], why) for (j, why) in stalls_a if j < len(back)]
+            if len(got) != len(asked):
+                model_lines = model_lines[:len(got)]
             for (i, why) in stalls:
                 # the model did not answer this request (stalled / died): a broken tie with the request as evidence
                 self.broken.append({"kind": "model-" + why, "family": family, "line": i + 1,
